@@ -106,7 +106,22 @@ Definition leak_of (c : cfg) (st : astate) (nx : N) (o : op) : list N :=
                          || (match acap c (a_bk a) with Some cap => cap <? new_len | None => false end)
                       then hidden else []
                   end
-              | None => []
+              | None =>
+                  (* items moved elsewhere or forgotten ([sp_splice_mv]) *)
+                  match sp_walk_mv c v xs pat (N.to_nat s) (N.to_nat e) (set_a v (Some (with_xs a (firstn (N.to_nat s) xs))) st) with
+                  | Some (WDone _ _ i j _ lost) =>
+                      let hidden := firstn (j - i) (skipn i xs) ++ skipn (N.to_nat e) xs in
+                      lost ++ match f with
+                              | FinForget => hidden ++ next_ids c nx (N.to_nat n)
+                              | FinDrop =>
+                                  match sp_splice_fin c a (N.to_nat s) (N.to_nat e) i j (next_ids c nx (N.to_nat n)) cl n with
+                                  | inl _ => hidden
+                                  | inr _ => []
+                                  end
+                              end
+                  | Some (WStop _ _ _ _ _ lost) => lost
+                  | None => []
+                  end
               end
           | None => []
           end
@@ -892,6 +907,79 @@ Qed.
 
 
 
+Lemma splice_mv_own st nx v sb eb pat f rk n wa cl r D L :
+  1 <= nx ->
+  sp_splice c st nx v sb eb pat f rk n wa cl = None ->
+  sp_splice_mv c st nx v sb eb pat f rk n wa cl = Some r ->
+  Permutation (created c nx) (vis st ++ D ++ L) ->
+  Permutation (created c (s_nx r))
+    (vis (s_st r) ++ (D ++ drops (s_evs r)) ++ (L ++ leak_of c st nx (OSplice Erased v sb eb pat f rk n wa cl))).
+Proof.
+  intros Hnx Hnone Hr0 Hinv.
+  destruct (sp_splice_mv_inv _ _ _ _ _ _ _ _ _ _ _ _ _ Hr0) as (Hrk & -> & Hr). clear Hr0.
+  assert (Hgd : (match rk, @None N with
+          | RLazy src, None => match get_a src st with Some b => (0 <? n) && (length (a_xs b) =? 0)%nat | None => false end
+          | _, _ => false
+          end) = false) by (destruct Hrk as [-> | ->]; reflexivity).
+  assert (Hnone' : sp_splice c st nx v sb eb pat f RWrap n None cl = None) by (destruct Hrk as [-> | ->]; exact Hnone).
+  clear Hnone. unfold sp_splice in Hnone'. unfold sp_splice_mv0 in Hr. cbn [leak_of]. rewrite Hgd. clear Hgd Hrk.
+  destruct (get_a v st) as [a|] eqn:Hg; [|discriminate]. cbv zeta in Hr, Hnone'.
+  set (xs := a_xs a) in *.
+  set (ts := next_ids c nx (N.to_nat n)) in *.
+  assert (Hcr : created c (nx + n) = created c nx ++ ts).
+  { replace (nx + n) with (nx + N.of_nat (N.to_nat n)) by lia. apply created_add. exact Hnx. }
+  pose proof (vis_get_any st v) as Hvis. rewrite Hg in Hvis. cbn [slot_xs] in Hvis. fold xs in Hvis.
+  destruct (range_of_bounds usize_max (N.of_nat (length xs)) (to_sb sb) (to_sb eb)) as [[sN eN]|] eqn:Erb; [|discriminate].
+  assert (Hb : sN <= eN /\ eN <= N.of_nat (length xs)).
+  { unfold range_of_bounds in Erb.
+    repeat match type of Erb with
+    | context [match ?x with _ => _ end] => destruct x eqn:?; try discriminate
+    | context [if ?x then _ else _] => destruct x eqn:?; try discriminate
+    end.
+    injection Erb as <- <-. match goal with H : (_ && _)%bool = true |- _ => apply andb_prop in H; destruct H as [H1 H2] end.
+    apply N.leb_le in H1, H2. lia. }
+  set (s := N.to_nat sN) in *. set (e := N.to_nat eN) in *.
+  assert (Hse : (s <= e)%nat) by lia. assert (Hel : (e <= length xs)%nat) by lia.
+  destruct (sp_walk xs pat s e) as [[[[rets0 ds0] i0] j0]|] eqn:Ew.
+  { destruct f; [|discriminate]. destruct (usize_max <? N.of_nat s + cl + N.of_nat (length xs - e)); [discriminate|].
+    destruct (match acap c (a_bk a) with Some cap => cap <? N.of_nat s + cl + N.of_nat (length xs - e) | None => false end); discriminate. }
+  clear Hnone'.
+  set (hidden := set_a v (Some (with_xs a (firstn s xs))) st) in *.
+  destruct (sp_walk_mv c v xs pat s e hidden) as [wr|] eqn:Em; [|discriminate].
+  pose proof (sp_walk_mv_perm v xs pat s e hidden wr Hse Hel Em) as Hw.
+  pose proof (vis_set_any st v (Some (with_xs a (firstn s xs)))) as Hh. cbn [slot_xs with_xs a_xs] in Hh. fold hidden in Hh.
+  assert (Hx : Permutation xs (firstn s xs ++ firstn (e - s) (skipn s xs) ++ skipn e xs)).
+  { rewrite <- (firstn_skipn s xs) at 1. apply Permutation_app_head.
+    rewrite (skipn_split_range xs s e Hse) at 1. reflexivity. }
+  assert (Hfin : forall i j, match sp_splice_fin c a s e i j ts cl n with
+                 | inl _ => True
+                 | inr (fevs, ys) => drops fevs = firstn (j - i) (skipn i xs) ++ skipn (Nat.min (N.to_nat cl) (N.to_nat n)) ts /\
+                                     ys = firstn s xs ++ firstn (Nat.min (N.to_nat cl) (N.to_nat n)) ts ++ skipn e xs
+                 end).
+  { intros i j. unfold sp_splice_fin. cbv zeta. fold xs.
+    destruct (usize_max <? N.of_nat s + cl + N.of_nat (length xs - e)); [exact I|].
+    destruct (match acap c (a_bk a) with Some cap => cap <? N.of_nat s + cl + N.of_nat (length xs - e) | None => false end); [exact I|].
+    split; [|reflexivity]. rewrite !drops_app, Hdg, !drops_map, drops_nexts. reflexivity. }
+  set (wr' := Nat.min (N.to_nat cl) (N.to_nat n)) in *.
+  assert (Hts : Permutation ts (firstn wr' ts ++ skipn wr' ts)) by (rewrite firstn_skipn; reflexivity).
+  destruct wr as [rets evs i j st' lost|p evs i j st' lost]; cbn [wres_parts] in Hw;
+    destruct Hw as (Hp & Hb1 & Hb2 & Hb3 & Hgv);
+    pose proof (vis_get_any st' v) as Hv'; rewrite Hgv in Hv'; unfold hidden in Hv'; rewrite get_a_set_same' in Hv';
+    cbn [slot_xs with_xs a_xs] in Hv'; specialize (Hfin i j).
+  - destruct f.
+    + destruct (sp_splice_fin c a s e i j ts cl n) as [p|[fevs ys]]; injection Hr as <-;
+        cbn [ok_res panic_res s_nx s_st s_evs]; rewrite Hcr.
+      * rewrite drops_app, Hdg, drops_map. perm_count.
+      * destruct Hfin as [Hd ->].
+        pose proof (vis_set_any st' v (Some (with_xs a (firstn s xs ++ firstn wr' ts ++ skipn e xs)))) as H1. cbn [slot_xs with_xs a_xs] in H1.
+        rewrite drops_app, Hd. perm_count.
+    + injection Hr as <-. cbn [ok_res s_nx s_st s_evs]. rewrite Hcr. perm_count.
+  - destruct (sp_splice_fin c a s e i j ts cl n) as [p'|[fevs ys]]; [discriminate|]. injection Hr as <-.
+    cbn [panic_res s_nx s_st s_evs]. rewrite Hcr. destruct Hfin as [Hd ->].
+    pose proof (vis_set_any st' v (Some (with_xs a (firstn s xs ++ firstn wr' ts ++ skipn e xs)))) as H1. cbn [slot_xs with_xs a_xs] in H1.
+    rewrite drops_app, Hd. perm_count.
+Qed.
+
 Lemma new_own st nx dst bk r D L :
   sp_new c st nx dst bk = Some r ->
   Permutation (created c nx) (vis st ++ D ++ L) ->
@@ -1150,8 +1238,18 @@ Proof.
   - destruct (sp_drain c st nx v sb eb pat f) as [r0|] eqn:Ed.
     + injection Hr as <-. exact (drain_own st nx v sb eb pat f r0 D L Ed Hinv).
     + exact (drain_mv_own st nx v sb eb pat f r D L Ed Hr Hinv).
-  - destruct rk as [| |src]; try exact (splice_own st nx v sb eb pat f _ n wrong_at claimed r D L Hnx Hr Hinv).
-    destruct wrong_at as [wa|]; [exact (splice_own st nx v sb eb pat f _ n _ claimed r D L Hnx Hr Hinv)|].
+  - assert (Hgen : forall rk' wa',
+              match sp_splice c st nx v sb eb pat f rk' n wa' claimed with
+              | Some r0 => Some r0
+              | None => sp_splice_mv c st nx v sb eb pat f rk' n wa' claimed
+              end = Some r ->
+              Permutation (created c (s_nx r))
+                (vis (s_st r) ++ (D ++ drops (s_evs r)) ++ (L ++ leak_of c st nx (OSplice Erased v sb eb pat f rk' n wa' claimed)))).
+    { intros rk' wa' H'. destruct (sp_splice c st nx v sb eb pat f rk' n wa' claimed) as [r0|] eqn:Es.
+      - injection H' as <-. exact (splice_own st nx v sb eb pat f rk' n wa' claimed r0 D L Hnx Es Hinv).
+      - exact (splice_mv_own st nx v sb eb pat f rk' n wa' claimed r D L Hnx Es H' Hinv). }
+    destruct rk as [| |src]; [exact (Hgen RWrap wrong_at Hr)|exact (Hgen RBox wrong_at Hr)|].
+    destruct wrong_at as [wa|]; [exact (Hgen (RLazy src) (Some wa) Hr)|].
     exact (splice_lazy_own st nx v sb eb pat f src n claimed r D L Hnx Hr Hinv).
   - (* OClone *)
     unfold sp_clone in Hr. cbn [leak_of]. destruct (Nat.eqb dst v); [discriminate|].
